@@ -84,6 +84,37 @@ func calleeName(call *ssa.Call) string {
 	return cal.Name()
 }
 
+// dynCalleeName is calleeName, with an interface method call resolved to the concrete method when the
+// receiver is, on this path, a MakeInterface of a named type (var c Codec; c = T(x); c.Decode()); the
+// second result is the concrete receiver value.
+func dynCalleeName(call *ssa.Call, res func(ssa.Value) ssa.Value) (string, ssa.Value) {
+	if !call.Call.IsInvoke() {
+		if len(call.Call.Args) > 0 {
+			return calleeName(call), call.Call.Args[0]
+		}
+		return calleeName(call), nil
+	}
+	v := res(call.Call.Value)
+	for i := 0; i < 4; i++ {
+		if ct, ok := v.(*ssa.ChangeInterface); ok {
+			v = res(ct.X)
+		}
+	}
+	mi, ok := v.(*ssa.MakeInterface)
+	if !ok {
+		return calleeName(call), nil
+	}
+	t := mi.X.Type()
+	if pt, isPtr := t.(*types.Pointer); isPtr {
+		t = pt.Elem()
+	}
+	nt, ok := t.(*types.Named)
+	if !ok || nt.Obj().Pkg() == nil {
+		return calleeName(call), nil
+	}
+	return nt.Obj().Pkg().Path() + ".(" + nt.Obj().Name() + ")." + call.Call.Method.Name(), mi.X
+}
+
 func stripAll(v ssa.Value) ssa.Value {
 	for {
 		switch x := v.(type) {
@@ -918,19 +949,31 @@ func selectRules(c *core.Ctx, codecs map[string]method05) {
 				return 0
 			}
 			v := w.Resolve(s)
+			_, isMI := v.(*ssa.MakeInterface)
 			switch {
 			case paths.IsNilConst(v):
 				if neq {
 					return -1
 				}
 				return 1
-			case errUnsupported(v):
+			case errUnsupported(v), isMI:
 				if neq {
 					return 1
 				}
 				return -1
 			}
 			return 0
+		}
+		decide0 := decide
+		decide = func(w *paths.Walker, cond ssa.Value) int {
+			// a flag set in the switch (tryPacked := false; case ...: tryPacked = true)
+			if k, ok := w.Resolve(cond).(*ssa.Const); ok && k.Value != nil && k.Value.Kind() == constant.Bool {
+				if constant.BoolVal(k.Value) {
+					return 1
+				}
+				return -1
+			}
+			return decide0(w, cond)
 		}
 		dps, err := paths.Enumerate(dec, paths.Config{Decide: decide})
 		if err != nil {
@@ -942,6 +985,7 @@ func selectRules(c *core.Ctx, codecs map[string]method05) {
 			nums     []int64
 			calls    []string // decode-relevant calls in order
 			first    *ssa.Call
+			firstOn  ssa.Value // the receiver of the first decoder call
 			problems []string
 			isDef    bool
 		}
@@ -952,6 +996,7 @@ func selectRules(c *core.Ctx, codecs map[string]method05) {
 			var last paths.Event
 			var nonNil []ssa.Value
 			compared := 0
+			var decodeCalls map[*ssa.Call]string
 			for _, e := range p.Events {
 				last = e
 				switch e.Kind {
@@ -960,14 +1005,22 @@ func selectRules(c *core.Ctx, codecs map[string]method05) {
 					if !ok {
 						continue
 					}
-					n := calleeName(call)
-					if strings.HasSuffix(n, ").Decode") || strings.HasPrefix(n, gsm7Path) || strings.HasSuffix(n, ").Encode") {
+					n, recv := dynCalleeName(call, e.Resolve)
+					if strings.HasSuffix(n, ").Decode") || strings.HasPrefix(n, gsm7Path) || strings.HasSuffix(n, ").Encode") || n == "invoke.Decode" || n == "invoke.Encode" {
 						dp.calls = append(dp.calls, n)
 						if dp.first == nil {
 							dp.first = call
+							dp.firstOn = recv
 						}
+						if decodeCalls == nil {
+							decodeCalls = map[*ssa.Call]string{}
+						}
+						decodeCalls[call] = n
 					}
 				case paths.EvBranch:
+					if k, ok := e.Resolve(e.Cond).(*ssa.Const); ok && k.Value != nil && k.Value.Kind() == constant.Bool {
+						continue // decided by the flag's value on this path
+					}
 					if s, neq, ok := nilTest(e.Cond); ok {
 						if neq == e.Taken {
 							nonNil = append(nonNil, e.Resolve(s))
@@ -1034,7 +1087,7 @@ func selectRules(c *core.Ctx, codecs map[string]method05) {
 					ex, ok := out.(*ssa.Extract)
 					if !ok || ex.Index != 0 {
 						dp.problems = append(dp.problems, "the success path does not return a decoder's output: "+role(last, r0))
-					} else if call, isC := ex.Tuple.(*ssa.Call); !isC || !(strings.HasSuffix(calleeName(call), ").Decode") || calleeName(call) == gsm7Path+".Decode") {
+					} else if call, isC := ex.Tuple.(*ssa.Call); !isC || !(strings.HasSuffix(decodeCalls[call], ").Decode") || decodeCalls[call] == gsm7Path+".Decode") {
 						dp.problems = append(dp.problems, "the success path returns the output of "+role(last, ex.Tuple))
 					}
 				default:
@@ -1078,9 +1131,9 @@ func selectRules(c *core.Ctx, codecs map[string]method05) {
 					continue
 				}
 				wantCall := load.Module + "/datacoding.(" + want + ").Decode"
-				if calleeName(dp.first) != wantCall {
-					problems = append(problems, "the first decoder tried is "+calleeName(dp.first)+", expected "+wantCall)
-				} else if stripAll(dp.first.Call.Args[0]) != src {
+				if dp.calls[0] != wantCall {
+					problems = append(problems, "the first decoder tried is "+dp.calls[0]+", expected "+wantCall)
+				} else if dp.firstOn == nil || stripAll(dp.firstOn) != src {
 					problems = append(problems, "the decoder is not applied to the source argument")
 				}
 				// later calls: only the alternative codecs of the same number (or their pipeline stages)
